@@ -10,6 +10,10 @@ d = f"/verif/seeded/{sid}"
 os.makedirs(d, exist_ok=True)
 meta_p = f"{d}/meta.json"
 scratch = f"/var/tmp/seedpar/{sid}"
+if os.path.exists(scratch):
+    print(sid, "already running elsewhere, skipped"); sys.exit(0)
+if os.path.exists(meta_p) and all(p in json.load(open(meta_p)).get("checks", {}) for p in props):
+    print(sid, "already tested, skipped"); sys.exit(0)
 shutil.rmtree(scratch, ignore_errors=True)
 os.makedirs(os.path.dirname(scratch), exist_ok=True)
 r = subprocess.run(["rsync", "-a", "--exclude", ".git", "--exclude", "seeded", "--exclude", "replays", "--exclude", "incremental", "/verif/", scratch + "/"])
